@@ -188,14 +188,72 @@ func isComment(node Node) bool {
 	return ok
 }
 
+// firstByte returns the first byte PrettyPrint emits for the node when it is printed as a statement
+// (0 if unknown). Used to keep adjacent statements from merging into one when printed.
+func firstByte(ps *PrintState, node Node) byte {
+	switch n := node.(type) {
+	case *InfixExpression:
+		if ps.AllParens {
+			return '('
+		}
+		return firstByte(ps, n.Left)
+	case *IndexExpression:
+		if ps.AllParens {
+			return '('
+		}
+		return firstByte(ps, n.Left)
+	case *PrefixExpression:
+		if ps.AllParens {
+			return '('
+		}
+	case *PostfixExpression:
+		if ps.AllParens {
+			return '('
+		}
+		if n.Prev != nil && n.Prev.Literal() != "" {
+			return n.Prev.Literal()[0]
+		}
+		return 0
+	case *CallExpression:
+		return firstByte(ps, n.Function)
+	case *FunctionLiteral:
+		if n.IsLambda {
+			if len(n.Parameters) == 1 {
+				return firstByte(ps, n.Parameters[0])
+			}
+			return '('
+		}
+	case *StringLiteral:
+		return '"'
+	case *ArrayLiteral:
+		return '['
+	case *MapLiteral:
+		return '{'
+	}
+	if node == nil || node.Value() == nil || node.Value().Literal() == "" {
+		return 0
+	}
+	return node.Value().Literal()[0]
+}
+
+func isWordByte(b byte) bool {
+	return b == '_' || (b >= '0' && b <= '9') || (b >= 'a' && b <= 'z') || (b >= 'A' && b <= 'Z')
+}
+
 // Compact mode: Skip comments and decide if we need a space separator or not.
 func prettyPrintCompact(ps *PrintState, s Node, i int) bool {
 	if isComment(s) {
 		return true
 	}
 	_, prevIsExpr := ps.prev.(*InfixExpression)
-	_, curIsArray := s.(*ArrayLiteral)
-	if curIsArray || (prevIsExpr && ps.last != "}" && ps.last != "]") {
+	first := firstByte(ps, s)
+	var last byte
+	if ps.last != "" {
+		last = ps.last[len(ps.last)-1]
+	}
+	// `[` and `(` right after an expression would index/call it, 2 words (or a number and .5) would merge into one.
+	needSpace := first == '[' || first == '(' || (isWordByte(last) && (isWordByte(first) || first == '.'))
+	if needSpace || (prevIsExpr && ps.last != "}" && ps.last != "]") {
 		if i > 0 {
 			_, _ = ps.Out.Write([]byte{' '})
 		}
